@@ -27,32 +27,37 @@ InOrder(hay, needles, from) == IF needles = <<>> THEN TRUE
                                ELSE LET p == Find(hay, Head(needles), from) IN p > 0 /\ InOrder(hay, Tail(needles), p + Len(Head(needles)))
 LastBytes(e, obj) == LET S == {i \in Idx(e) : ObjOf(e, i) = obj /\ GotBytes(e, i)} IN
                      IF S = {} THEN <<>> ELSE Res(e)[CHOOSE i \in S : \A j \in S : j <= i].bytes
+Enabled(tag) == Prop = "all" \/ tag = "all" \/ tag = Prop
+\* a check is evaluated only when its property is selected (operator arguments are evaluated lazily)
+Ck(tag, name, cond) == <<tag, name, IF Enabled(tag) THEN cond ELSE TRUE>>
+HasSpec(e) == ~Has(e, "nospec")          \* top-down histories carry no tree: only framing and repeatability are judged
 Checks(e) ==
   IF ~Aligned(e) THEN << <<"all", "the API calls completed without panicking", FALSE>> >>
   ELSE LET r == Res(e) IN
-  << <<"all", "no observer panicked", \A i \in Idx(e) : ~Has(r[i], "panic")>>,
-     <<"C01", "header carries version 4 and the type code of the message kind",
-        \A i \in TopIdx(e) : GotBytes(e, i) => (Len(r[i].bytes) >= 8 /\ r[i].bytes[1] = 4 /\ r[i].bytes[2] = TypeCode(TreeOf(e, i)))>>,
-     <<"C01", "header length field = number of bytes produced",
-        \A i \in TopIdx(e) : GotBytes(e, i) => (Len(r[i].bytes) >= 8 /\ W16(r[i].bytes, 3) = Len(r[i].bytes))>>,
-     <<"C01", "size the message reports for itself = number of bytes produced",
-        \A i \in TopIdx(e), j \in TopIdx(e) : (GotLen(e, i) /\ GotBytes(e, j)) => r[i].len = Len(r[j].bytes)>>,
-     <<"C02", "a walker using only declared lengths, alignment, zero padding and legal codes consumes the message exactly",
-        \A i \in TopIdx(e) : GotBytes(e, i) => WalkMsg(r[i].bytes)>>,
-     <<"C03", "encoding = the specified layout with the supplied values",
-        \A i \in Idx(e) : GotBytes(e, i) => r[i].bytes = Enc(TreeOf(e, i))>>,
-     <<"C06", "reported size = encoded size",
-        \A i \in Idx(e), j \in Idx(e) : (ObjOf(e, i) = ObjOf(e, j) /\ GotLen(e, i) /\ GotBytes(e, j)) => r[i].len = Len(r[j].bytes)>>,
-     <<"C06", "children's standalone encodings appear inside the container whole, unmodified, disjoint and in order",
-        InOrder(LastBytes(e, e.top), [k \in DOMAIN e.kids |-> LastBytes(e, e.kids[k])], 1)>>,
-     <<"C13", "repeated size queries and encodings give the same answer",
-        \A i \in Idx(e), j \in Idx(e) : (ObjOf(e, i) = ObjOf(e, j) /\ KindOf(e, i) = KindOf(e, j)) => r[i] = r[j]>> >>
-Mismatch(e) == {i \in Idx(e) : GotBytes(e, i) /\ Res(e)[i].bytes # Enc(TreeOf(e, i))}
+  << Ck("all", "no observer panicked", \A i \in Idx(e) : ~Has(r[i], "panic")),
+     Ck("C01", "header carries version 4 and the type code of the message kind",
+        \A i \in TopIdx(e) : GotBytes(e, i) => (Len(r[i].bytes) >= 8 /\ r[i].bytes[1] = 4 /\ r[i].bytes[2] = TypeCode(TreeOf(e, i)))),
+     Ck("C01", "header length field = number of bytes produced",
+        \A i \in TopIdx(e) : GotBytes(e, i) => (Len(r[i].bytes) >= 8 /\ W16(r[i].bytes, 3) = Len(r[i].bytes))),
+     Ck("C01", "size the message reports for itself = number of bytes produced",
+        \A i \in TopIdx(e), j \in TopIdx(e) : (GotLen(e, i) /\ GotBytes(e, j)) => r[i].len = Len(r[j].bytes)),
+     Ck("C02", "a walker using only declared lengths, alignment, zero padding and legal codes consumes the message exactly",
+        HasSpec(e) => \A i \in TopIdx(e) : GotBytes(e, i) => WalkMsg(r[i].bytes)),
+     Ck("C03", "encoding = the specified layout with the supplied values",
+        HasSpec(e) => \A i \in Idx(e) : GotBytes(e, i) => r[i].bytes = Enc(TreeOf(e, i))),
+     Ck("C06", "reported size = encoded size",
+        \A i \in Idx(e), j \in Idx(e) : (ObjOf(e, i) = ObjOf(e, j) /\ GotLen(e, i) /\ GotBytes(e, j)) => r[i].len = Len(r[j].bytes)),
+     Ck("C06", "encoded size = the size the grammar assigns to the value (nothing added was dropped or truncated)",
+        HasSpec(e) => \A i \in Idx(e) : GotBytes(e, i) => Len(r[i].bytes) = Len(Enc(TreeOf(e, i)))),
+     Ck("C06", "children's standalone encodings appear inside the container whole, unmodified, disjoint and in order",
+        InOrder(LastBytes(e, e.top), [k \in DOMAIN e.kids |-> LastBytes(e, e.kids[k])], 1)),
+     Ck("C13", "repeated size queries and encodings give the same answer",
+        \A i \in Idx(e), j \in Idx(e) : (ObjOf(e, i) = ObjOf(e, j) /\ KindOf(e, i) = KindOf(e, j)) => r[i] = r[j]) >>
+Mismatch(e) == IF ~(Enabled("C03") /\ HasSpec(e)) THEN {} ELSE {i \in Idx(e) : GotBytes(e, i) /\ Res(e)[i].bytes # Enc(TreeOf(e, i))}
 Detail(e) == IF ~Aligned(e) \/ Mismatch(e) = {} THEN [none |-> TRUE]
              ELSE LET i == CHOOSE j \in Mismatch(e) : \A k \in Mismatch(e) : j <= k IN
                   [obj |-> ObjOf(e, i), kind |-> TreeOf(e, i).T, expected |-> Enc(TreeOf(e, i)), observed |-> Res(e)[i].bytes]
-Enabled(tag) == Prop = "all" \/ tag = "all" \/ tag = Prop
-Failed(e) == LET cs == Checks(e) IN {i \in DOMAIN cs : Enabled(cs[i][1]) /\ ~cs[i][3]}
+Failed(e) == LET cs == Checks(e) IN {i \in DOMAIN cs : ~cs[i][3]}
 Init == l \in 1..Len(Trace) /\ done = FALSE
 Judge == /\ ~done /\ done' = TRUE /\ UNCHANGED l
          /\ LET e == Trace[l]  bad == Failed(e) IN
